@@ -4,6 +4,9 @@
 package main
 
 import (
+	"strings"
+	"sync/atomic"
+	"runtime"
 	"encoding/hex"
 	"bufio"
 	"bytes"
@@ -235,6 +238,59 @@ func trunc(b []byte) []byte {
 	return b
 }
 
+// slowWriter hands the bytes on only after other goroutines had a chance to run (a slow peer / a busy scheduler).
+type slowWriter struct{ buf []byte }
+
+func (w *slowWriter) Write(p []byte) (int, error) {
+	runtime.Gosched()
+	time.Sleep(time.Duration(len(p)%3) * 50 * time.Microsecond)
+	w.buf = append(w.buf, p...)
+	return len(p), nil
+}
+
+func lp(parts ...string) []byte {
+	var out []byte
+	for _, p := range parts {
+		out = append(out, byte(len(p)>>8), byte(len(p)))
+		out = append(out, p...)
+	}
+	return out
+}
+
+// concurrentEncoders: many goroutines encode different messages at the same time into slow writers; each writer must
+// receive exactly the wire format of its own message.
+func concurrentEncoders() int {
+	var wg sync.WaitGroup
+	var cnt int64
+	for g := 0; g < 32; g++ {
+		wg.Add(1)
+		go func(g int) {
+			defer wg.Done()
+			for i := 0; i < 150; i++ {
+				login, pw := fmt.Sprintf("user-%02d-%03d-%s", g, i, strings.Repeat("x", (g*7+i)%200)), fmt.Sprintf("pw/%d/%d", g, i)
+				req := sasl.Request{Login: login, Password: pw, Service: "imap", Realm: fmt.Sprint(g)}
+				w := &slowWriter{}
+				if err := req.Encode(w); err != nil || !bytes.Equal(w.buf, lp(login, pw, "imap", fmt.Sprint(g))) {
+					violate("request-encode:concurrent", fmt.Sprintf("goroutine %d message %d: the writer received %d bytes that are not the wire format of its own request (err=%v)", g, i, len(w.buf), err), nil)
+				}
+				msg := fmt.Sprintf("answer for %d/%d %s", g, i, strings.Repeat("y", (g+i)%120))
+				resp := sasl.Response{Result: i%2 == 0, Message: msg}
+				w2 := &slowWriter{}
+				want := "NO " + msg
+				if i%2 == 0 {
+					want = "OK " + msg
+				}
+				if err := resp.Encode(w2); err != nil || !bytes.Equal(w2.buf, lp(want)) {
+					violate("response-encode:concurrent", fmt.Sprintf("goroutine %d message %d: the writer received bytes that are not the wire format of its own response (err=%v)", g, i, err), nil)
+				}
+				atomic.AddInt64(&cnt, 2)
+			}
+		}(g)
+	}
+	wg.Wait()
+	return int(cnt)
+}
+
 // encoderLaws: round trips and limits at the real boundary lengths, arbitrary bytes.
 func encoderLaws(seed int64) int {
 	rng := rand.New(rand.NewSource(seed))
@@ -415,7 +471,7 @@ func main() {
 	wg.Wait()
 	laws := 0
 	if !*resp {
-		laws = encoderLaws(*seed)
+		laws = encoderLaws(*seed) + concurrentEncoders()
 	}
 	ncorpus := 0
 	if *corpus != "" { // the go-fuzz corpus through the same oracle: decode must never panic, and a decoded message re-encodes
